@@ -43,6 +43,7 @@ theorem existing_never_skipped {r : Inv} {loc : Option (List Str)} {cls : Str} {
   · intro cfg'
     unfold readClass
     simp only [h]
+    cases fr <;> rfl
   · unfold readClass
     simp only [h]
     cases fr with
@@ -261,8 +262,8 @@ example : exInv.cfg.isClassIgnored "other.gone".toList = false := by decide
 
 /-- `a` includes the ignored `opt.gone`: `a` and `b` are loaded, `opt.gone` is neither seen
 nor merged, but it is in the class list. -/
-example : summary (walkClasses 20 exInv none ["a".toList] [] {}) =
-    .inl (some (["a", "b"].map String.toList, ["b", "opt.gone", "a"].map String.toList,
+example : summary (renderImpl 20 exInv { classes := ⟨["a".toList]⟩ } [] {}) =
+    .inl (some (["a", "b"].map String.toList, ["opt.gone", "b", "a"].map String.toList,
       ["kb", "ka"].map (fun s => Key.str s.toList))) := by decide
 
 /-- A missing class that no pattern matches fails the walk, naming the class … -/
@@ -276,7 +277,7 @@ example : summary (walkClasses 20 { exInv with cfg := { ignoreClassNotfound := f
 /-- The catch-all pattern does not make an existing class disappear. -/
 example : summary (walkClasses 20 { exInv with cfg := { ignoreClassNotfound := true, compiled := [.any] } }
     none ["b".toList] [] {}) =
-    .inl (some (["b"].map String.toList, ["b"].map String.toList, [Key.str "kb".toList])) := by decide
+    .inl (some (["b"].map String.toList, [], [Key.str "kb".toList])) := by decide
 
 end C16
 end Reclass
